@@ -404,6 +404,41 @@ func runC07(c *ctx) {
 			checkUnchanged(prog, e, fullDoc(r, r.chance(1, 3)), "foreign-pattern")
 		}
 	}
+	// 2b. one transform, several pattern items: items of the copy next to objects of the caller's document (reached through $$ or a
+	// variable), with update values that are themselves objects of the caller's document. What an update inserts by reference is
+	// still the caller's: a later item of the same transform that IS such an object must not be written to (seed C07-12).
+	{
+		local := []string{"$.b", "b", "items[0]", "$", "items", "e", "$.a", "a", "items[-1]", "*"}
+		foreign := []string{"$$.b", "$v.b", "$$.items[0]", "$v.items", "$$", "$$.e", "$v.items[-1]", "$$.a", "$v"}
+		for i := 0; i < c.scale(1500, 20000) && !c.tooMany(); i++ {
+			f := foreign[r.intn(len(foreign))]
+			alias := f
+			if r.chance(1, 3) {
+				alias = foreign[r.intn(len(foreign))]
+			}
+			l := local[r.intn(len(local))]
+			items := []string{l, f}
+			switch r.intn(4) {
+			case 0:
+				items = []string{f, l}
+			case 1:
+				items = []string{l, foreign[r.intn(len(foreign))], f}
+			}
+			upd := []string{`{"ref": ` + alias + `}`, `{"ref": ` + alias + `, "n1": 1}`, `{"ref": [` + alias + `]}`, `{"ref": {"in": ` + alias + `}}`}[r.intn(4)]
+			del := []string{"", "", `, "k"`, `, "ref"`}[r.intn(4)]
+			prog := "($v := $; " + []string{"$", "$", "$", "items", "b"}[r.intn(5)] + " ~> |[" + strings.Join(items, ", ") + "]|" + upd + del + "|)"
+			if r.chance(1, 5) {
+				prog = "($v := $; $ ~> |[" + strings.Join(items, ", ") + "]|" + upd + "| ~> |[" + l + ", " + f + "]|{\"z\": 1}|)"
+			}
+			if e := compileOrNil(prog); e != nil {
+				d := fullDoc(r, r.chance(1, 3))
+				if r.chance(1, 3) {
+					d = map[string]interface{}{"a": map[string]interface{}{"n": 1.0}, "b": map[string]interface{}{"k": 1.0}, "items": []interface{}{map[string]interface{}{"id": 1.0, "k": 2.0}, map[string]interface{}{"id": 2.0}}, "e": map[string]interface{}{}}
+				}
+				checkUnchanged(prog, e, d, "mixed-pattern-aliasing-update")
+			}
+		}
+	}
 	// 3. frame condition for the full generator
 	for i := 0; i < c.scale(5000, 100000) && !c.tooMany(); i++ {
 		g.chaotic = r.chance(1, 3)
